@@ -53,15 +53,15 @@ type Executor struct {
 }
 
 type frame struct {
-	fn     *ssa.Function
-	regs   map[ssa.Value]Value
-	block  *ssa.BasicBlock
-	prev   *ssa.BasicBlock
-	idx    int
-	depth  int
-	visits map[*ssa.BasicBlock]int
-	bind   []Value // free variables
-	inLoop map[*ssa.BasicBlock]bool
+	fn      *ssa.Function
+	regs    map[ssa.Value]Value
+	block   *ssa.BasicBlock
+	prev    *ssa.BasicBlock
+	idx     int
+	depth   int
+	visits  map[*ssa.BasicBlock]int
+	bind    []Value // free variables
+	inLoop  map[*ssa.BasicBlock]bool
 	iterPos map[ssa.Value]int
 	parent  *frame
 	names   map[string]cval
